@@ -195,11 +195,29 @@ def find(ctx, c, img, h):
     fits.PrimaryHDU(data=img, header=h).writeto(fn, overwrite=True)
     sf = SourceFinder(log=NULLLOG)
     kw = dict(cores=1, docov=bool(c['docov']), innerclip=5, outerclip=4, nonegative=False, nopositive=False)
-    if c.get('bane'):
-        pass
-    else:
-        kw.update(rms=abs(c['peak']) / c['snr'], bkg=0.0)
+    # option set: first letter rms, second bkg; f = forced by the caller, e = estimated internally (BANE)
+    opts = c.get('opts') or ('ee' if c.get('bane') else 'ff')
+    if opts[0] == 'f':
+        kw['rms'] = c['noise'] if c.get('noise') else abs(c['peak']) / c['snr']
+    if opts[1] == 'f':
+        kw['bkg'] = float(c.get('pedestal', 0.0))
     return sf.find_sources_in_image(fn, **kw)
+
+
+def symmetrize(img, xy):
+    """average the image with its point reflection about the source centre (a pixel corner or centre): the Gaussian is
+    point symmetric, so this changes it by rounding errors only, but makes mirror pixels BIT-EQUAL (what a renderer
+    working in pixel coordinates produces)"""
+    ny, nx = img.shape
+    cx2, cy2 = int(round(2 * (xy[0] - 1))), int(round(2 * (xy[1] - 1)))
+    out = img.copy()
+    r = np.arange(ny)
+    c_ = np.arange(nx)
+    r2, c2 = cy2 - r, cx2 - c_
+    rok, cok = (r2 >= 0) & (r2 < ny), (c2 >= 0) & (c2 < nx)
+    rr, cc = np.meshgrid(r[rok], c_[cok], indexing='ij')
+    out[rr, cc] = 0.5 * (img[rr, cc] + img[cy2 - rr, cx2 - cc])
+    return out
 
 
 def amp_bound_binding(c, img):
@@ -216,6 +234,16 @@ def judge(c, truth, w, out, img=None):
     bad = []
     if len(out) != 1:
         bad.append('count')
+        if len(out) > 1:
+            # one source split into several components: every component sits on the source, has its shape, and the
+            # peaks add up to the injected peak; and the input is of the kind known to do that (bit-equal mirror pixels
+            # about a pixel corner, or an oblique ridge with axis ratio >= 3)
+            near = all(sph_offsets(truth['ra'], truth['dec'], s.ra, s.dec)[0] * 3600.0 <= 0.6 * truth['a'] for s in out)
+            tot = sum(s.peak_flux for s in out) / truth['peak']
+            kind = bool(c.get('symmetric')) or (c['a'] / c['b'] >= 3.0 and c['pa'] % 90.0 != 0.0)
+            m['peak_sum_ratio'] = float(tot)
+            m['split'] = bool(near and abs(tot - 1) < 0.03 and kind)
+            m['components'] = [[float(s.peak_flux), float(s.a), float(s.b), float(s.pa)] for s in out]
         return bad, m
     s = out[0]
     px = w.all_world2pix([[s.ra, s.dec]], 1)[0]
@@ -262,6 +290,8 @@ def signature(c, bad, m, img):
             and abs(m['psf_area_ratio'] - 1) > 1e-3:
         # everything else is recovered and the flux is exactly the injected one times BMAJ*BMIN/(psf_a*psf_b)
         sig = dict(site='WCSHelper.get_beamarea_pix', clause='int_flux', cause='pixel-beam-of-reference-pixel')
+    elif bad == ['count'] and m.get('split'):
+        sig = dict(site='estimate_lmfit_parinfo', what='component-count', split_summit=True, cause='pixel-corner-or-ridge')
     elif 'peak' in bad and img is not None and not c.get('bane') and amp_bound_binding(c, img):
         sig = dict(site='estimate_lmfit_parinfo', clause='peak', cause='amp-bound-below-true-peak')
     return sig
@@ -272,17 +302,26 @@ def pretty(c):
     return (f"{c['proj']} {c['n'][0]}x{c['n'][1]} scale={px:g}\" crval=({c['crval'][0]:.4f},{c['crval'][1]:.4f}) "
             f"crpix=({c['crpix'][0]:.2f},{c['crpix'][1]:.2f}) beam=({c['beam'][0] / c['scale']:.2f},{c['beam'][1] / c['scale']:.2f})px@{c['beam'][2]:.1f} "
             f"src xy=({c['xy'][0]:.3f},{c['xy'][1]:.3f}) a={c['a'] / px:.2f}px b={c['b'] / px:.2f}px pa={c['pa']:.2f} peak={c['peak']:.4g} "
-            f"docov={c['docov']} snr={c['snr']:g}" + (' bane' if c.get('bane') else '') + (f" noise={c['noise']:g}" if c.get('noise') else ''))
+            f"docov={c['docov']} snr={c['snr']:g}" + (' bane' if c.get('bane') else '') + (f" noise={c['noise']:g}" if c.get('noise') else '')
+            + (f" opts={c['opts']}" if c.get('opts') else '') + (f" pedestal={c['pedestal']:g}" if c.get('pedestal') else '')
+            + (' symmetric' if c.get('symmetric') else '') + (' judged' if c.get('judged') else ''))
 
 
 def loop_case(ctx, c, record=True):
     """run one closed-loop case; returns (bad, m)"""
     _quiet()
     img, h, w, truth = render(c)
+    if c.get('symmetric'):
+        img = symmetrize(img, c['xy'])
     data = img
     if c.get('noise'):
         rs = np.random.RandomState(c.get('noise_seed', 0))
-        data = img + correlated_noise(rs, img.shape, c, c['noise'])
+        if c.get('noise_kind') == 'white':
+            data = img + rs.normal(0.0, c['noise'], img.shape)
+        else:
+            data = img + correlated_noise(rs, img.shape, c, c['noise'])
+    if c.get('pedestal'):
+        data = data + float(c['pedestal'])
     try:
         out = find(ctx, c, data, h)
     except Exception as e:  # the finder must not raise on a valid image
@@ -303,6 +342,12 @@ def loop_case(ctx, c, record=True):
         ctx.count('docov:%s' % c['docov'])
         ctx.count('sign:' + ('+' if c['peak'] > 0 else '-'))
         ctx.count('dec>=60' if abs(c['crval'][1]) >= 60 else 'dec<60')
+        if c.get('opts'):
+            ctx.count('opts:' + c['opts'] + (':pedestal' if c.get('pedestal') else ''))
+        if c.get('symmetric'):
+            ctx.count('exact-pixel-corner')
+        if c['a'] / c['b'] >= 3.0:
+            ctx.count('axis-ratio>=3')
         if bad:
             report(ctx, 'spec', dict(c, pretty=pretty(c)),
                    dict(failed=bad, measured=m, truth=truth, tolerances=TOL), signature(c, bad, m, img))
@@ -335,6 +380,20 @@ def judge_noisy(ctx, c, truth, w, out, record):
         if len(out) != 1:
             bad.append('count')
         m['flags'] = int(s.flags)
+    if c.get('judged'):
+        # the part of the noisy clause whose error model is sound: position and peak flux (white noise, docov off);
+        # a, b (open finding C01-err-a-b-not-fwhm), pa and int stay exploration-only
+        jbad = [k for k in bad if k in ('ra', 'dec', 'peak', 'count')]
+        if record:
+            ctx.case(dict(c, pretty=pretty(c), measured=m), json.dumps(c, sort_keys=True))
+            ctx.count('noisy-judged:runs')
+            ctx.count('opts:' + (c.get('opts') or 'ff') + ':noisy')
+            if jbad:
+                ctx.fail('spec', dict(c, pretty=pretty(c)),
+                         dict(failed=jbad, measured=m, truth=truth, criterion='|value - truth| <= 5 reported standard errors '
+                              '(ra, dec, peak) and exactly one component'),
+                         dict(site='find_sources_in_image', clause='noisy-5-sigma', which='+'.join(jbad), opts=c.get('opts') or 'ff'))
+        return jbad, m
     if record:
         ctx.case(dict(c, pretty=pretty(c), measured=m))
         ctx.count('noisy:runs')
@@ -371,15 +430,75 @@ def gen_case(rng, quick=True, hard=False):
     crpix = rng.choice([(nx / 2.0, ny / 2.0), (1.0, 1.0), (nx / 2.0 + 0.5, ny / 2.0 + 0.5),
                         (rng.uniform(0, nx), rng.uniform(0, ny)),
                         (rng.uniform(-40.0, nx + 40.0), rng.uniform(-40.0, ny + 40.0))])
-    return dict(proj=proj, n=[nx, ny], crval=[ra0, dec0], crpix=[crpix[0], crpix[1]], scale=scale,
-                beam=[beam[0], beam[1], beam[2]], xy=[x, y], a=a, b=b, pa=pa, peak=peak,
-                docov=rng.random() < 0.5, snr=rng.choice([200.0, 50.0, 1000.0]))
+    c = dict(proj=proj, n=[nx, ny], crval=[ra0, dec0], crpix=[crpix[0], crpix[1]], scale=scale,
+             beam=[beam[0], beam[1], beam[2]], xy=[x, y], a=a, b=b, pa=pa, peak=peak,
+             docov=rng.random() < 0.5, snr=rng.choice([200.0, 50.0, 1000.0]))
+    u = rng.random()
+    if u < 0.05:
+        # centred EXACTLY on a pixel corner, mirror pixels bit-equal (open finding C01-split-summit)
+        c['xy'] = [round(x) + 0.5, round(y) + 0.5]
+        c['symmetric'] = True
+    elif u < 0.07:
+        # a thin oblique ridge: axis ratio 3..5 (open finding C01-split-summit)
+        c['n'] = [128, 120]
+        c['a'] = beam[0] * 3600.0 * rng.uniform(3.0, 4.5)
+        c['b'] = beam[0] * 3600.0
+        c['pa'] = rng.choice([30.0, -60.0, rng.uniform(-89.0, 89.0)])
+        c['xy'] = [rng.uniform(50.0, 78.0), rng.uniform(50.0, 70.0)]
+        c['docov'] = False
+    return c
 
 
 # the witness of the open known finding: TAN, 60" pixels, reference pixel 330 px from the source
 KNOWN_INT_FLUX = dict(proj='TAN', n=[96, 80], crval=[180.0, -30.0], crpix=[-200.0, -150.0], scale=60.0 / 3600.0,
                       beam=[3.0 * 60.0 / 3600.0, 3.0 * 60.0 / 3600.0, 0.0], xy=[50.3, 40.6], a=300.0, b=200.0,
                       pa=35.0, peak=1.0, docov=False, snr=50.0)
+
+
+# witnesses of the open finding C01-split-summit
+KNOWN_SPLIT_CORNER = dict(proj='SIN', n=[96, 80], crval=[180.0, -30.0], crpix=[48.0, 40.0], scale=10.0 / 3600.0,
+                          beam=[30.0 / 3600.0, 30.0 / 3600.0, 0.0], xy=[50.5, 40.5], a=60.0, b=35.0, pa=45.0, peak=1.0,
+                          docov=False, snr=200.0, symmetric=True)
+KNOWN_SPLIT_RIDGE = dict(proj='SIN', n=[128, 120], crval=[180.0, -30.0], crpix=[64.0, 60.0], scale=10.0 / 3600.0,
+                         beam=[50.0 / 3600.0, 50.0 / 3600.0, 0.0], xy=[50.3, 40.2], a=200.0, b=50.0, pa=30.0, peak=1.0,
+                         docov=False, snr=200.0)
+
+
+def option_cases(rng):
+    """mixed option sets on images sitting on a non-zero pedestal.
+    noise-free: rms forced, background estimated internally (BANE's clipped median of a noise-free pedestal is the pedestal).
+    noisy, JUDGED (fixed geometry and noise seeds, so the clean tree's verdict does not depend on VERIF_SEED): white noise,
+    docov off, S/N 50, |dec| 80..86 in ZEA/ARC/STG, all four option sets; ra, dec, peak within 5 reported sigma."""
+    out = []
+    for k, proj in enumerate(['SIN', 'TAN', 'ZEA', 'ARC', 'STG', 'SIN']):
+        c = gen_case(rng, True)
+        c.pop('symmetric', None)
+        c.update(proj=proj, n=[128, 128], crpix=[64.0 + k, 60.0], xy=[rng.uniform(40, 90), rng.uniform(40, 90)],
+                 opts='fe', pedestal=abs(c['peak']) * rng.choice([0.3, -0.2, 1.0]), docov=(k % 2 == 1))
+        s = c['scale']
+        c['beam'] = [3.2 * s, 3.2 * s * rng.uniform(0.7, 1.0), rng.uniform(-90, 90)]
+        c['a'] = c['beam'][0] * 3600 * rng.uniform(1.0, 2.0)
+        c['b'] = max(c['beam'][0] * 3600, c['a'] * rng.uniform(0.5, 1.0))
+        out.append(c)
+    fixed = random_fixed()
+    for k in range(12):
+        proj = ['ZEA', 'ARC', 'STG'][k % 3]
+        dec = [84.0, -82.0, 86.0, -80.0][k % 4]
+        s = 10.0 / 3600.0
+        out.append(dict(proj=proj, n=[128, 128], crval=[fixed.uniform(0, 360), dec], crpix=[64.0, 64.0], scale=s,
+                        beam=[3.0 * s, 3.0 * s, 0.0], xy=[fixed.uniform(45, 85), fixed.uniform(45, 85)],
+                        a=3.0 * s * 3600 * fixed.uniform(1.0, 1.8), b=3.0 * s * 3600, pa=fixed.uniform(-89, 89),
+                        peak=fixed.choice([1.0, -1.0, 7.5]), docov=False, snr=50.0, opts=['ff', 'fe', 'ef', 'ee'][k % 4],
+                        noise_kind='white', noise_seed=1000 + k, judged=True))
+        c = out[-1]
+        c['noise'] = abs(c['peak']) / 50.0
+        c['pedestal'] = 0.3 * abs(c['peak'])
+    return out
+
+
+def random_fixed():
+    import random
+    return random.Random('C01/judged-noisy')
 
 
 def load_corpus():
@@ -735,6 +854,49 @@ def errors_witness(ctx):
                    dict(site='fitting.errors', clause='err_a_err_b', cause='sigma-not-fwhm-x-component-only'))
 
 
+def errors_position_witness(ctx):
+    """err_ra / err_dec as `fitting.errors` defines them: with ref = pix2sky(x, y) and off = pix2sky(x + err_x, y + err_y),
+    err_ra is the great-circle angle between ref and (off.ra, ref.dec) and err_dec the one between ref and (ref.ra, off.dec)
+    - true angles on the sky, so the RA error already carries its cos(dec).  Evaluated with astropy and the harness's own
+    spherical code at |dec| = 84 (where an extra or missing cos(dec) is a factor 10), three projections."""
+    import lmfit
+    from astropy.io import fits
+    from astropy.wcs import WCS
+    from AegeanTools.source_finder import SourceFinder
+    from AegeanTools.models import IslandFittingData
+    for proj, dec0 in (('ZEA', 84.0), ('ARC', -84.0), ('STG', 84.0), ('SIN', 0.0)):
+        c = dict(proj=proj, n=[96, 80], crval=[123.0, dec0], crpix=[48.0, 40.0], scale=10.0 / 3600, beam=[30.0 / 3600, 30.0 / 3600, 0.0])
+        h = make_header(c)
+        fn = os.path.join(ctx.tmpdir(), 'c01-errpos-%d.fits' % os.getpid())
+        fits.PrimaryHDU(data=np.zeros((80, 96)), header=h).writeto(fn, overwrite=True)
+        sf = SourceFinder(log=NULLLOG)
+        sf.load_globals(fn, rms=1.0, bkg=0.0, cores=1, docov=False)
+        w = WCS(h, naxis=2)
+        fit = dict(amp=1.0, xo=5.3, yo=4.6, sx=3.0, sy=2.0, theta=20.0)
+        err = dict(amp=0.01, xo=0.07, yo=0.04, sx=0.05, sy=0.05, theta=0.5)
+        model = lmfit.Parameters()
+        for k, v in fit.items():
+            model.add('c0_' + k, value=v)
+            model['c0_' + k].stderr = err[k]
+        model.add('c0_flags', value=0, vary=False)
+        model.add('components', value=1, vary=False)
+        isl = IslandFittingData(1, np.ones((10, 10)), (5, 4, None), (30, 40, 20, 30), False)
+        src = sf.result_to_components(fitting_dummy(), model, isl, 0)[0]
+        xp, yp = 5.3 + 30 + 1, 4.6 + 20 + 1                       # (row, column), 1-based
+        ref = w.all_pix2world([[yp, xp]], 1)[0]
+        off = w.all_pix2world([[yp + err['yo'], xp + err['xo']]], 1)[0]
+        want_ra = float(sph_offsets(ref[0], ref[1], off[0], ref[1])[0])
+        want_dec = float(sph_offsets(ref[0], ref[1], ref[0], off[1])[0])
+        case = dict(op='errors-position', header=pretty_hdr(c), fit=fit, stderr=err,
+                    reported=dict(err_ra=float(src.err_ra), err_dec=float(src.err_dec)), expected=dict(err_ra=want_ra, err_dec=want_dec))
+        ctx.case(case, 'errpos:' + proj)
+        ctx.count('errors-position-witness')
+        if not (close(float(src.err_ra), want_ra, rel=1e-6, abs_=1e-12) and close(float(src.err_dec), want_dec, rel=1e-6, abs_=1e-12)):
+            ctx.fail('spec', case, f"{proj} dec={dec0}: reported err_ra={src.err_ra:.6g} err_dec={src.err_dec:.6g} deg, but moving the "
+                     f"fitted pixel position by its standard errors moves the sky position by {want_ra:.6g} (along RA, as an angle "
+                     f"on the sky) and {want_dec:.6g} (Dec)", dict(site='fitting.errors', clause='err_ra_err_dec'))
+
+
 def pretty_hdr(c):
     return f"{c['proj']} {c['n'][0]}x{c['n'][1]} scale={c['scale'] * 3600:g}\" crval={c['crval']} crpix={c['crpix']}"
 
@@ -755,13 +917,16 @@ def run(ctx):
     common.use_repo()
     _quiet()
     # corpus + the witness of the open known finding first
-    for c in [KNOWN_INT_FLUX] + load_corpus():
+    for c in [KNOWN_INT_FLUX, KNOWN_SPLIT_CORNER, KNOWN_SPLIT_RIDGE] + load_corpus():
+        loop_case(ctx, c)
+    for c in option_cases(ctx.rng):
         loop_case(ctx, c)
     corr_leaves(ctx)
     corr_residual(ctx)
     corr_convert(ctx)
     corr_palimit(ctx)
     errors_witness(ctx)
+    errors_position_witness(ctx)
     n = 260 if ctx.quick else 1500
     worst = {}
     for k in range(n):
